@@ -5,6 +5,7 @@ import (
 	"go/token"
 	"go/types"
 	"sort"
+	"strings"
 
 	"mrocheck/an"
 
@@ -376,4 +377,48 @@ func ruleG9(c *an.Ctx, sp *ssa.Package) {
 		detail = "a pipeline enters the work-list of RemoveUnusedOutputs only when something refers to one of its outputs: a pipeline that is called but whose outputs nobody references is never visited, the references made inside it do not count, and outputs they use are removed (NoSuchOutputError in the edited program)"
 	}
 	c.Check("G9", "called-pipelines-are-visited@RemoveUnusedOutputs", root.Pos(), byCall != "", detail)
+}
+
+// G10: declarations are matched by name, not by object identity.  `mro edit` compiles every file
+// given on the command line into its own AST; a callable declared in a shared include is a distinct
+// object in each of them.  The edits are built from one AST and applied to all, so code that
+// recognises "a call of THE callable being edited" by comparing object identities
+// (`pipe.Callables.Table[c.Id] == callable`) finds nothing in the other ASTs: the declaration loses
+// its parameter while the callers defined in later files keep their binding, and those files no
+// longer compile.  Rule: package refactoring never compares two values of a declaration type
+// (syntax.Callable, *Pipeline, *Stage, *CallStm, *StructType) for identity, except against nil.
+func ruleG10(c *an.Ctx, sp *ssa.Package) {
+	isDecl := func(t types.Type) bool {
+		s := t.String()
+		for _, suf := range []string{"syntax.Callable", "*github.com/martian-lang/martian/martian/syntax.Pipeline", "*github.com/martian-lang/martian/martian/syntax.Stage", "*github.com/martian-lang/martian/martian/syntax.CallStm", "*github.com/martian-lang/martian/martian/syntax.StructType"} {
+			if strings.HasSuffix(s, suf) {
+				return true
+			}
+		}
+		return false
+	}
+	n := 0
+	for _, mem := range sp.Members {
+		_ = mem
+	}
+	for _, fn := range c.P.FuncsOf(pkgRefac) {
+		an.Instrs(fn, func(in ssa.Instruction) {
+			b, ok := in.(*ssa.BinOp)
+			if !ok || (b.Op != token.EQL && b.Op != token.NEQ) {
+				return
+			}
+			if an.IsNil(b.X) || an.IsNil(b.Y) {
+				return
+			}
+			if !isDecl(b.X.Type()) && !isDecl(b.Y.Type()) {
+				return
+			}
+			n++
+			c.Fail("G10", "declaration-matched-by-identity("+an.StablePath(b.X)+" "+b.Op.String()+" "+an.StablePath(b.Y)+")@"+an.FnName(fn), b.Pos(),
+				"two declaration objects are compared for identity: an edit built from one compiled AST is applied to the ASTs of every file given to `mro edit`, in which the same callable (from a shared include) is a different object, so the comparison only ever succeeds in the first AST and the other files are left inconsistent with the edited declaration")
+		})
+	}
+	if n == 0 {
+		c.Pass("G10", "declarations-matched-by-name@package refactoring", token.NoPos, "no identity comparison between declaration objects in package refactoring")
+	}
 }
